@@ -139,14 +139,19 @@ def r2_tables(ctx):
         raw = [ast.literal_eval(v) for _n, v in repo.enum_members(cls)]
         r.check(len(raw) == len(set(raw)), "C18.R2", cls.qual, "distinct priorities",
                 f"{enum_name} values {raw} are not distinct: tied keys are chosen by insertion order", cls)
-        node = repo.const(F, regex_name)
-        ok = isinstance(node, ast.Call) and call_tail(node) == "compile" and any("IGNORECASE" in src(a) for a in list(node.args[1:]) + [k.value for k in node.keywords])
-        r.check(ok, "C18.R2", f"{F}:{regex_name}", "compiled with IGNORECASE", f"{regex_name} is not compiled case-insensitively", cls)
         rx = module_const(it, F, regex_name)
+        import re as _re
+        # the flag is read off the evaluated pattern object (however the module builds it)
+        ok = bool(getattr(rx, "flags", 0) & _re.IGNORECASE)
+        r.check(ok, "C18.R2", f"{F}:{regex_name}", "compiled with IGNORECASE", f"{regex_name} is not compiled case-insensitively", cls)
         pat = getattr(rx, "pattern", "")
         alts = pat[1:-1].split("|") if pat.startswith("(") and pat.endswith(")") else []
-        r.check(all(a.startswith("^") and a.endswith("$") for a in alts) and {a[1:-1] for a in alts} == lit, "C18.R2", f"{F}:{regex_name}",
-                "anchored alternatives = the literal set", f"{regex_name} pattern {pat!r} is not the anchored alternation of {sorted(lit)}", cls)
+        if alts and all(a.startswith("^") and a.endswith("$") for a in alts):
+            r.check({a[1:-1] for a in alts} == lit, "C18.R2", f"{F}:{regex_name}",
+                    "anchored alternatives = the literal set", f"{regex_name} pattern {pat!r} is not the anchored alternation of {sorted(lit)}", cls)
+        else:
+            # another way of writing the pattern: exact, case-insensitive matching is decided by C18.RK on look-alike keys
+            r.note(f"C18.R2: {regex_name} pattern {pat!r} is not of the form (^a$|^b$...); table comparison skipped, matching decided by C18.RK")
 
 
 def _sorted_by(fn_node, name, gkey):
